@@ -3,8 +3,9 @@ CONSTANTS
   Reqs <- Reqs3
   Parts <- P111
   RegAfter <- RegFirst
+  KeyOf <- IdKey
   Dups = {3}
   LookupAtomic = TRUE
   FailIdx = {}
-INVARIANTS NoSpurious MatchOnce NoLoss Emit
+INVARIANTS NoSpurious MatchOnce NoLoss RightType Emit
 CHECK_DEADLOCK FALSE
